@@ -25,12 +25,15 @@ def specs_for(ctx):
     specs += opskit.precondition_specs(ctx.rng, ctx.n(6, 60))
     specs += opskit.large_population_specs(ctx.rng, ctx.n(3, 12))   # more than 32 individuals
     specs += opskit.new_species_specs(ctx.rng, ctx.n(12, 120))     # a later speciation founds new species; earlier populations re-inspected
+    # sizes just beyond 128 / 256 / 512 / 1024: pairwise different individuals, every index checked against the argument of the same call
+    specs += opskit.threshold_population_specs(ctx.rng, [257] if ctx.quick else [257, 300, 513, 1025])
+    specs += opskit.threshold_population_specs(ctx.rng, [] if ctx.quick else [129, 257], heavy=True)   # + stub optimiser, speciation, tournament selection
     specs += opskit.empty_population_specs()  # correspondence only: outside the claim (non-empty populations)
     specs += opskit.merge_specs(ctx.rng, ctx.n(12, 120))
     specs += opskit.boundary_selection_specs(ctx.rng, ctx.n(40, 400))
     specs += opskit.mutation_after_speciation_specs(ctx.rng, ctx.n(15, 150))
     specs += opskit.persistent_specs(ctx.rng, ctx.n(40, 400))  # one operator object per kind for the whole sequence, 0 < p < 1
-    for _ in range(ctx.n(150, 3000)):
+    for _ in range(ctx.n(110, 3000)):
         specs.append(opskit.random_spec(ctx.rng))
     return specs
 
